@@ -447,3 +447,14 @@ M('c18-unbuffered-disconnect-closed-only-under-pump-flag', 'C18', 'R8', WS, _REC
             self._close_code = event.get('code', WSCloseCode.NORMAL)
             raise errors.WebSocketDisconnected(self._close_code)
 """, also=('C17',))
+
+# ---- auto-mutation seed sa-am01220 (R9): ready/closed are complementary views over (state, client-disconnected flag)
+_READY_OLD = """            self._state == _WebSocketState.ACCEPTED
+            and not self._buffered_receiver.client_disconnected
+"""
+M('c18-ready-ignores-disconnect-flag', 'C18', 'R9', WS, _READY_OLD, "            self._state == _WebSocketState.ACCEPTED\n")
+M('c18-ready-flag-polarity', 'C18', 'R9', WS, _READY_OLD,
+  "            self._state == _WebSocketState.ACCEPTED\n            and self._buffered_receiver.client_disconnected\n")
+M('c18-ready-is-not-closed-state-only', 'C18', 'R9', WS, _READY_OLD, "            self._state != _WebSocketState.CLOSED\n")
+M('c18-ready-or-for-and', 'C18', 'R9', WS, _READY_OLD,
+  "            self._state == _WebSocketState.ACCEPTED\n            or not self._buffered_receiver.client_disconnected\n")
